@@ -1096,7 +1096,7 @@ func (r *Resolver) answer(ctx context.Context, req, resp *dns.Msg, parentDS []dn
 					lastErr = err
 					continue
 				}
-				candidateDSRR, err := r.findDS(ctx, signer, q.Name, origDSRR, false)
+				candidateDSRR, anchored, err := r.findAnchoredDS(ctx, signer, q.Name, origDSRR, false)
 				if err != nil {
 					if isDNSSECWorkError(err) {
 						return nil, err
@@ -1150,7 +1150,9 @@ func (r *Resolver) answer(ctx context.Context, req, resp *dns.Msg, parentDS []dn
 					}
 					ok = wildcardSecure
 				}
-				resp.AuthenticatedData = ok
+				// Signatures that check out against a DS set which is itself
+				// not anchored make the data consistent, not authentic.
+				resp.AuthenticatedData = ok && anchored
 				settled = true
 				break
 			}
@@ -1266,7 +1268,7 @@ func (r *Resolver) authority(ctx context.Context, req, resp *dns.Msg, parentDS [
 					lastErr = err
 					continue
 				}
-				candidateDSRR, err := r.findDS(ctx, signer, q.Name, origDSRR, false)
+				candidateDSRR, anchored, err := r.findAnchoredDS(ctx, signer, q.Name, origDSRR, false)
 				if err != nil {
 					if isDNSSECWorkError(err) {
 						return nil, err
@@ -1291,7 +1293,10 @@ func (r *Resolver) authority(ctx context.Context, req, resp *dns.Msg, parentDS [
 					lastErr = verr
 					continue
 				}
-				verified = ok
+				// As in answer(): a denial signed under an unanchored DS set
+				// is insecure data; it is relayed without AD and never
+				// becomes a shared validated proof.
+				verified = ok && anchored
 				chosenSigner = signer
 				settled = true
 				break
@@ -2471,10 +2476,24 @@ func (r *Resolver) findRRSIGSigners(resp *dns.Msg, qname string, inAnswer bool) 
 }
 
 func (r *Resolver) findDS(ctx context.Context, signer, qname string, parentDS []dns.RR, cd bool) (dsset []dns.RR, err error) {
+	dsset, _, err = r.findAnchoredDS(ctx, signer, qname, parentDS, cd)
+	return dsset, err
+}
+
+// findAnchoredDS is findDS that also reports whether the DS set it returns
+// hangs off the trust anchor. A DS set fetched with validation on that came
+// back without AD was served by a zone that is itself not authenticated — a
+// signed island below an insecure delegation. Such a set still identifies
+// the child's keys, so signatures are checked against it and tampering
+// shows as bogus, but a chain that starts there proves nothing: whatever
+// validates through it is insecure data and must not earn AD (RFC 4035
+// §4.3, §5.2).
+func (r *Resolver) findAnchoredDS(ctx context.Context, signer, qname string, parentDS []dns.RR, cd bool) (dsset []dns.RR, anchored bool, err error) {
+	anchored = true
 	if signer == rootzone && len(parentDS) == 0 {
 		parentDS, err = r.dsRRFromRootKeys(ctx)
 		if err != nil {
-			return nil, err
+			return nil, false, err
 		}
 	} else if len(parentDS) > 0 {
 		dsrr := parentDS[0].(*dns.DS)
@@ -2499,12 +2518,15 @@ func (r *Resolver) findDS(ctx context.Context, signer, qname string, parentDS []
 
 				dsResp, err := r.lookupDS(ctx, candidate, cd)
 				if err != nil {
-					return nil, err
+					return nil, false, err
 				}
 
 				parentDS = dnsutil.ExtractRRSet(dsResp.Answer, candidate, dns.TypeDS)
 				if len(parentDS) == 0 {
 					break
+				}
+				if !cd && !dsResp.AuthenticatedData {
+					anchored = false
 				}
 
 				n = dnsname.CompareSuffix(candidate, qname)
@@ -2514,16 +2536,17 @@ func (r *Resolver) findDS(ctx context.Context, signer, qname string, parentDS []
 			// try lookup DS records
 			dsResp, err := r.lookupDS(ctx, signer, cd)
 			if err != nil {
-				return nil, err
+				return nil, false, err
 			}
 
 			parentDS = dnsutil.ExtractRRSet(dsResp.Answer, signer, dns.TypeDS)
+			if !cd && len(parentDS) > 0 && !dsResp.AuthenticatedData {
+				anchored = false
+			}
 		}
 	}
 
-	dsset = parentDS
-
-	return
+	return parentDS, anchored, nil
 }
 
 // isZoneSecure determines whether a missing RRSIG for qname should be treated
